@@ -1036,3 +1036,89 @@ func checkCallHelper(p *Prog, r *Result) {
 		r.bad("T5c", key, p.pos(C.Decl), why)
 	}
 }
+
+// LED (ledger rule): when the rollback of a Txn walks a list that the condition step fills (V = append(V, x)) to know what
+// to undo, the entry recording an effect must be appended before anything else can fail: between the effect call and the
+// append no call that returns an error may be reachable. Otherwise a failure in that window leaves an effect the rollback
+// does not know about.
+func (a *txnAnalyzer) checkLedger(r *Result, s *txnSite) int {
+	p := a.p
+	cond, rb := s.closures[0], s.closures[2]
+	if cond == nil || rb == nil {
+		return 0
+	}
+	var deep func(fn *FuncNode, f func(*FuncNode))
+	deep = func(fn *FuncNode, f func(*FuncNode)) {
+		f(fn)
+		for _, l := range fn.Lits {
+			deep(l, f)
+		}
+	}
+	ranged := map[types.Object]bool{}
+	deep(rb, func(fn *FuncNode) {
+		fn.inspectBody(func(n ast.Node) bool {
+			if rs, ok := n.(*ast.RangeStmt); ok {
+				if o := fn.objOf(rs.X); o != nil {
+					ranged[o] = true
+				}
+			}
+			return true
+		})
+	})
+	n := 0
+	returnsError := func(f *types.Func) bool {
+		sig, _ := f.Type().(*types.Signature)
+		if sig == nil {
+			return false
+		}
+		for i := 0; i < sig.Results().Len(); i++ {
+			if sig.Results().At(i).Type().String() == "error" {
+				return true
+			}
+		}
+		return false
+	}
+	deep(cond, func(fn *FuncNode) {
+		fn.inspectBody(func(x ast.Node) bool {
+			as, ok := x.(*ast.AssignStmt)
+			if !ok || len(as.Lhs) != 1 || len(as.Rhs) != 1 {
+				return true
+			}
+			c, ok := unparen(as.Rhs[0]).(*ast.CallExpr)
+			if !ok {
+				return true
+			}
+			id, ok := c.Fun.(*ast.Ident)
+			if !ok || id.Name != "append" || len(c.Args) < 2 {
+				return true
+			}
+			v := fn.objOf(as.Lhs[0])
+			if v == nil || !ranged[v] || fn.objOf(c.Args[0]) != v {
+				return true
+			}
+			appRef := fn.find(as)
+			// effect calls of the same function that dominate the append
+			for _, ec := range fn.calls(func(f *types.Func) bool { return effectOf(objName(f)) != nil }) {
+				eref := fn.find(ec)
+				if !fn.dominates(eref, appRef) || eref == appRef {
+					continue
+				}
+				n++
+				key := fmt.Sprintf("%s / LED / %s is recorded in %s before anything else can fail", s.key, shortName(objName(fn.Callee(ec))), v.Name())
+				hit, found := fn.reach(eref, true, func(nr nodeRef) bool {
+					if nr == appRef {
+						return false
+					}
+					return fn.nodeHasCall(nr, returnsError)
+				}, func(nr nodeRef) bool { return nr == appRef }, false)
+				if found {
+					r.bad("LED", key, p.pos(as), fmt.Sprintf("between %s and the append that records it for the rollback, a step that can fail is reachable (%s): when it fails the rollback walks %s, does not find this entry and leaves the effect behind", shortName(objName(fn.Callee(ec))), p.pos(hit.node()), v.Name()))
+				} else {
+					r.ok("LED", key, p.pos(as), "the entry is appended right after the effect succeeded")
+				}
+			}
+			return true
+		})
+	})
+	return n
+}
